@@ -1452,8 +1452,15 @@ func g23UnresolvedReported(r *Repo, rep *Report) {
 						return true
 					}
 				}
+				// U == "" for the joined text of the undefined calls: empty exactly when there is none
+				if truth && ((isUndefExpr(x.X) && isEmptyString(info, x.Y)) || (isUndefExpr(x.Y) && isEmptyString(info, x.X))) {
+					return true
+				}
 				return truth && ((lenOfU(x.X) && isZero(x.Y)) || (lenOfU(x.Y) && isZero(x.X)))
 			case token.NEQ, token.GTR:
+				if x.Op == token.NEQ && !truth && ((isUndefExpr(x.X) && isEmptyString(info, x.Y)) || (isUndefExpr(x.Y) && isEmptyString(info, x.X))) {
+					return true
+				}
 				return !truth && lenOfU(x.X) && isZero(x.Y)
 			}
 		}
@@ -1935,4 +1942,11 @@ func g23HeaderCondition(r *Repo, rep *Report, fi *FuncInfo) {
 	}
 	rep.pass("G23")
 	rep.sample(map[string]string{"rule": "G23 the reload loop's header is `this pass generated something`", "loop": r.pos(loop.Pos())})
+}
+
+
+// isEmptyString: the constant "".
+func isEmptyString(info *types.Info, e ast.Expr) bool {
+	tv, ok := info.Types[e]
+	return ok && tv.Value != nil && tv.Value.ExactString() == `""`
 }
